@@ -44,6 +44,8 @@ class Check:
         self.violations = []  # confirmed: (record, replay_path)
         self.flaky = []
         self.unreplayable = []
+        self.hangs_confirmed = 0
+        self.hangs_not_replayed = 0
         self.known_lines = []
         self.notes = []
 
@@ -117,7 +119,8 @@ class Check:
             cmd += ["--known", ",".join(self.open_classes)]
         cmd += list(extra) + ["--replay-case"] + self.replay_tokens(rec)
         try:
-            r = subprocess.run(cmd, capture_output=True, text=True, timeout=120)
+            # a replay executes one case: the no-return watchdog of the driver may fire after 3 s of CPU time there (still ~10^5 x any call)
+            r = subprocess.run(cmd, capture_output=True, text=True, timeout=120, env=dict(os.environ, XSV_HANG_SECONDS="3"))
         except subprocess.TimeoutExpired:
             return 1, "timeout"
         return r.returncode, r.stdout + r.stderr
@@ -162,6 +165,11 @@ class Check:
             for rec in recs:
                 if done >= 2 or len(self.violations) >= 80:
                     break
+                if str(rec.get("why", "")).startswith("no return:") and self.hangs_confirmed >= 4:
+                    # every replay of a call that does not return costs seconds of CPU: four confirmed ones decide the check,
+                    # the others are listed without being replayed
+                    self.hangs_not_replayed += 1
+                    continue
                 rec.setdefault("property", self.prop)
                 rec["also_failing_on"] = tg
                 try:
@@ -175,12 +183,18 @@ class Check:
                 if ok:
                     self.violations.append((rec, self.save_violation(rec)))
                     done += 1
+                    if str(rec.get("why", "")).startswith("no return:"):
+                        self.hangs_confirmed += 1
                 else:
                     self.flaky.append({"case": rec, "replay_failures": fails})
                     if fails == 0:
                         # failed inside the worker, passes deterministically when replayed from its record: the record does not
                         # describe the case (a harness defect), not a flaky run.  Never a silent pass.
                         self.unreplayable.append((rec, "fails in the worker, passes 3/3 when replayed from its record"))
+
+        if self.hangs_not_replayed:
+            n = "%d more candidates of the kind 'the call does not return' were not replayed (four confirmed ones decide the check)" % self.hangs_not_replayed
+            self.notes = [x for x in self.notes if "were not replayed (four confirmed" not in x] + [n]
 
     def replay_saved(self, driver, extra=()):
         """regression tier: every file under replay/<prop>/ must pass"""
